@@ -8,3 +8,15 @@ import Ark.Props.C01
 #print axioms Ark.Props.C01.column_copy_is_rowwise
 #print axioms Ark.Props.C01.table_shape_reachable
 #print axioms Ark.Props.C01.extend_as_in_source
+#print axioms Ark.Props.C01.index_inv_init
+#print axioms Ark.Props.C01.index_inv_create
+#print axioms Ark.Props.C01.index_inv_move
+#print axioms Ark.Props.C01.index_inv_remove
+#print axioms Ark.Props.C01.index_inv_batch_move
+#print axioms Ark.Props.C01.index_inv_batch_create
+#print axioms Ark.Props.C01.index_inv_write
+#print axioms Ark.Props.C01.index_inv_new_table
+#print axioms Ark.Props.C01.move_frame
+#print axioms Ark.Props.C01.move_keeps_values
+#print axioms Ark.Props.C01.remove_frame
+#print axioms Ark.Props.C01.write_frame
